@@ -17,7 +17,7 @@ ID = "C17"
 LEVEL = "fault_enumeration"
 ENGINE = "simdisk"
 
-TIERS = {"quick": {"runs": 160, "budget": 60.0, "cap": 120.0},
+TIERS = {"quick": {"runs": 600, "budget": 60.0, "cap": 120.0},
          "thorough": {"runs": 100000, "budget": 900.0, "cap": 300.0}}
 
 
